@@ -160,7 +160,9 @@ def check_printf(record, events_py, verdict_prints, tol=True):
             floats = [i for i, a in enumerate(args) if isinstance(a, float)][:4]
             fnamed = [n for n, a in named.items() if isinstance(a, float)][:2]
             def near(x):
-                return (x, math.nextafter(x, math.inf), math.nextafter(x, -math.inf), x * (1 + 1e-12), x * (1 - 1e-12))
+                out = (x, math.nextafter(x, math.inf), math.nextafter(x, -math.inf), x * (1 + 1e-12), x * (1 - 1e-12))
+                # whether a setting read back from a light holds 3500 or 3500.0 is not documented
+                return out + ((int(x),) if x == int(x) and abs(x) < 2 ** 53 else ())
             for combo in itertools.product(*[near(args[i]) for i in floats], *[near(named[n]) for n in fnamed]):
                 trial, trial_named = list(args), dict(named)
                 for i, z in zip(floats, combo):
